@@ -126,6 +126,8 @@ def run_case(case):
     for j in range(k):
         for c in scalings:
             cf = float(c)
+            if abs(cf) < 1e-2 and any(abs(cf) ** o[j] < 1e-9 for o in values):
+                continue  # an input term whose entries are all below atol (1e-12) is dropped by design
             try:
                 tr = run(case, scaled(values, j, cf), k, total)
             except Exception as e:  # noqa: BLE001
@@ -135,7 +137,7 @@ def run_case(case):
                 for n in orders:
                     # compare after undoing the scaling, so that the comparison is relative
                     cmp(f"scaling parameter {j} by {c}: {name}[{list(n)}] is not c^n_j times the original",
-                        tr[name][n].scale((1 / c) ** n[j] if exact else (1.0 / cf) ** n[j]), base[name][n])
+                        tr[name][n].scale((Fraction(1) / Fraction(c)) ** n[j] if exact else (1.0 / cf) ** n[j]), base[name][n])
     # (b) permutations of parameters
     if k >= 2:
         for perm in itertools.permutations(range(k)):
